@@ -49,6 +49,10 @@ RES_SLACK = 1.0 + 1e-6
 # spline's Hessian differs a little), plus the interpolation error of the bicubic spline's
 # gradient divided by the Hessian: observed <= 0.004 cell (atol 1e-12) - granted 0.05 cell.
 POS_INTERP_CELLS = 0.05
+# ... times max(1, 0.4 s_max/s_min): the gradient error is set by the narrow direction of a
+# hill, the displacement it causes by the weak direction of the Hessian (for the elliptical
+# hills s_max/s_min = kappa^2; observed 0.002 kappa^2 cell - granted 0.02 kappa^2)
+POS_ANISO = 0.4
 # psi at the critical point: the spline's value error C (h/w)^4 |psi| (w narrowest Gaussian
 # width; observed <= 2e-4 of the bound with C = 1) plus the second-order effect of the position
 PSI_C = 1.0
@@ -150,7 +154,8 @@ def _judge_fc(case, fam, ref, exp, op, xp, cell, dom, viol, st):
     # -- each analytic point returned exactly once, nothing else returned
     used = set()
     for c in exp:
-        tol_pos = 1.5 * np.sqrt(atol) * dom[1] / c["smin"] + POS_INTERP_CELLS * np.hypot(dR, dZ)
+        aniso = max(1.0, POS_ANISO * c["smax"] / c["smin"])
+        tol_pos = 1.5 * np.sqrt(atol) * dom[1] / c["smin"] + POS_INTERP_CELLS * aniso * np.hypot(dR, dZ)
         near = [k for k, g in enumerate(got) if np.hypot(g["R"] - c["R"], g["Z"] - c["Z"]) < 3 * np.hypot(dR, dZ)]
         if not near:
             tie = _tie_diagnosis(ref, c, cell)
@@ -172,10 +177,9 @@ def _judge_fc(case, fam, ref, exp, op, xp, cell, dom, viol, st):
         used.update(near)
         d = float(np.hypot(g["R"] - c["R"], g["Z"] - c["Z"]))
         st["worst_pos"] = max(st["worst_pos"], d / tol_pos)
-        if atol <= 1e-10 and wmin:
-            model = max(dR, dZ) ** 3 * 12.0 * scale / wmin**4 / c["smin"]
-            st["worst_pos_model"] = max(st["worst_pos_model"], d / model)
         if atol <= 1e-10:
+            # in units of the interpolation allowance (what the calibration refers to)
+            st["worst_pos_model"] = max(st["worst_pos_model"], d / (POS_INTERP_CELLS * aniso * np.hypot(dR, dZ)))
             st["worst_pos_cells_tight"] = max(st["worst_pos_cells_tight"],
                                               float(np.hypot((g["R"] - c["R"]) / dR, (g["Z"] - c["Z"]) / dZ)))
         if d > tol_pos:
@@ -645,7 +649,7 @@ def run(ctx, only=None):
             ctx.setmax("worst_residual_over_atol", s["worst_res"])
             ctx.setmax("worst_psi_error_over_tolerance", s["worst_psi"])
             ctx.setmax("worst_position_error_cells_at_tight_atol", s["worst_pos_cells_tight"])
-            ctx.setmax("worst_position_error_over_h3_model_at_tight_atol", s["worst_pos_model"])
+            ctx.setmax("worst_position_error_over_interpolation_allowance_at_tight_atol", s["worst_pos_model"])
         elif kind == "eq":
             ctx.setmax("worst_strike_point_distance_over_tolerance", s["worst_strike"])
             ctx.setmax("worst_kept_xpoint_distance_m", s["worst_xpos"])
